@@ -25,25 +25,6 @@ from aiomysensors.model.node import Child, Node  # noqa: E402  (repo, via use_re
 import aiomysensors.model.protocol.protocol_14 as _p14  # noqa: E402
 
 
-class _TimeShim:
-    """Replaces the `time` module attribute of protocol_14 (the repo's clock seam)."""
-
-    def __init__(self, now_fn):
-        self._now = now_fn
-
-    def localtime(self, secs=None):
-        return _real_time.localtime(self._now() if secs is None else secs)
-
-    def time(self):
-        return float(self._now())
-
-    def gmtime(self, secs=None):
-        return _real_time.gmtime(self._now() if secs is None else secs)
-
-    def __getattr__(self, name):
-        return getattr(_real_time, name)
-
-
 def utc_offset(cfg, epoch: int) -> int:
     if "tz_offset" in cfg and cfg["tz_offset"] is not None:
         return int(cfg["tz_offset"])
@@ -87,15 +68,10 @@ def execute(scn: dict, prop: str, aspects, on_step=None, send_strict=(1,), keep=
     if tz:
         os.environ["TZ"] = tz
         _real_time.tzset()
-    old_time = _p14.time
     with gc_paused():
         w = GwWorld(cfg, scn.get("tapes"))
-        clock = {"base": int(cfg.get("epoch", 1_700_000_000)), "jump": 0}
-
-        def now():
-            return clock["base"] + clock["jump"] + int(w.loop.time())
-
-        _p14.time = _TimeShim(now)
+        clock = w.clock
+        now = w.now
         model = Model(metric=cfg.get("metric", True), version=cfg.get("pin"))
         step_now = {"t": now()}
         model.local_epoch = lambda: step_now["t"] + utc_offset(cfg, step_now["t"])
@@ -149,7 +125,6 @@ def execute(scn: dict, prop: str, aspects, on_step=None, send_strict=(1,), keep=
                 if on_step is not None:
                     on_step(i, op, obs, disc, model, w, res)
         finally:
-            _p14.time = old_time
             res.digest = w.elog.digest()
             res.vt = w.loop.time()
             res.steps = w.loop.steps
